@@ -22,13 +22,20 @@ Leaf(nm) == CASE nm = "none" -> VNone [] nm = "int" -> VInt(7) [] nm = "str" -> 
 Key1(cls) == IF cls = "idict" THEN VInt(0) ELSE VStr("a")
 Key2(cls) == IF cls = "idict" THEN VInt(1) ELSE VStr("b")
 PyCls(cls) == IF cls = "idict" THEN "dict" ELSE cls
-Extra == 3               \* cells n+1: {}, n+2: [], n+3: frozenset({1})
+Extra == 4               \* cells n+1: {}, n+2: [], n+3: frozenset({1}), n+4: a sibling of another type
+\* side "mixobj" / "mixdict" / "mixlist": the second entry of every level is cell n+4, an attribute
+\* object / dict / list holding the same keys ("a", "0", index 0) as the levels do, so that a
+\* wildcard over a level matches destinations of different types (different handlers)
 
 MkHeap(levels, leaf, side) ==
   LET n == Len(levels)
       fix(v) == IF IsRef(v) /\ v.a < 0 THEN VRef(n - v.a) ELSE v
       first(i) == IF i < n THEN VRef(i + 1) ELSE fix(leaf)
-      second(i) == CASE side = "shared" -> first(i) [] side = "empty" -> VRef(n + 1) [] OTHER -> VNone
+      second(i) == CASE side = "shared" -> first(i) [] side = "empty" -> VRef(n + 1)
+                     [] side \in {"mixobj", "mixdict", "mixlist"} -> VRef(n + 4) [] OTHER -> VNone
+      mix == CASE side = "mixdict" -> Cell("dict", << <<VStr("a"), VInt(1)>>, <<VStr("0"), VInt(2)>>, <<VStr("b"), VInt(3)>> >>)
+               [] side = "mixlist" -> Cell("list", <<VInt(1), VInt(2)>>)
+               [] OTHER -> Cell("obj", << <<VStr("a"), VInt(1)>>, <<VStr("0"), VInt(2)>>, <<VStr("b"), VInt(3)>> >>)
       cell(i) == LET c == levels[i] IN
                  IF c \in {"list", "tuple"}
                  THEN Cell(c, IF side = "absent" THEN <<first(i)>> ELSE <<first(i), second(i)>>)
@@ -37,7 +44,8 @@ MkHeap(levels, leaf, side) ==
   IN [i \in 1..(n + Extra) |-> IF i <= n THEN cell(i)
                                ELSE IF i = n + 1 THEN Cell("dict", <<>>)
                                ELSE IF i = n + 2 THEN Cell("list", <<>>)
-                               ELSE Cell("frozenset", <<VInt(1)>>)]
+                               ELSE IF i = n + 3 THEN Cell("frozenset", <<VInt(1)>>)
+                               ELSE mix]
 Root(levels, leaf) == LET n == Len(levels) IN
   IF n > 0 THEN VRef(1) ELSE IF IsRef(leaf) THEN VRef(n - leaf.a) ELSE leaf
 
